@@ -274,6 +274,10 @@ func genCLI(out *bufio.Writer, rng *rand.Rand, count int) int {
 		if debug {
 			args = append(args, "-debug")
 		}
+		if rng.Intn(60) == 0 && len(files) == 2 {
+			// a warrior file of more than a mebibyte: comment lines first, the program at the end
+			files[1] = append([]byte(strings.Repeat("; padding padding padding padding padding padding padding padding\n", 17000)), files[1]...)
+		}
 		var hexes []string
 		for i, f := range files {
 			p := filepath.Join(dir, fmt.Sprintf("w%d_%d.red", n, i))
